@@ -101,7 +101,7 @@ ROOT_ROWS = ["accept", "version", "old_rule", "new_rule", "type", "new_malformed
 DELEG_KINDS = ["ok", "below", "wrongkey", "type_mismatch", "unknown_role", "junk", "edited", "ok", "signatures_list", "trusted_not_delegating",
                "trusted_malformed", "untrusted_extra_envelope_field", "openpgp_signed_nonroot", "mixed_raw_and_openpgp"]
 CROSS = ["root_under_nonroot_with_root_role", "keymgr_under_keymgr", "root_raw_signed_under_root"]
-MALFORMED = ["untrusted_not_json", "trusted_not_json", "untrusted_list", "untrusted_scalar", "no_signed", "no_type", "type_not_str",
+MALFORMED = ["huge_valid_accept", "valid_prefix_then_padding_then_junk", "huge_valid_reject", "untrusted_not_json", "trusted_not_json", "untrusted_list", "untrusted_scalar", "no_signed", "no_type", "type_not_str",
              "missing_untrusted", "missing_trusted", "empty_file", "swapped", "trusted_is_payload"]
 CLASSES = [("root", x) for x in ROOT_ROWS] + [("deleg", x) for x in DELEG_KINDS] + [("cross", x) for x in CROSS] + [("malformed", x) for x in MALFORMED]
 
@@ -186,7 +186,16 @@ def gen_pair(rng, cls=None):
     k = cls[1]
     c = rootchain.gen_pair(rng, "accept")
     tb, ub = json.dumps(c["trusted"]).encode(), json.dumps(c["new"]).encode()
-    if k == "untrusted_not_json":
+    if k in ("huge_valid_accept", "huge_valid_reject"):
+        # a large but perfectly valid offer (thousands of ignorable entries): well over half a megabyte
+        c = rootchain.gen_pair(rng, "accept" if k == "huge_valid_accept" else "old_rule")
+        for j in range(4000):
+            c["new"]["signatures"]["%064x" % rng.getrandbits(256)] = {"other_headers": "04001608", "signature": "%0128x" % rng.getrandbits(512)}
+        tb, ub = json.dumps(c["trusted"]).encode(), json.dumps(c["new"], indent=1).encode()
+    elif k == "valid_prefix_then_padding_then_junk":
+        # NOT a JSON document: a valid signed offer, then whitespace up to beyond any plausible read limit, then garbage
+        ub = ub + b" " * rng.choice([70000, 600000, 1100000]) + rng.choice([b"garbage", b"{}", ub])
+    elif k == "untrusted_not_json":
         ub = b"{not json"
     elif k == "trusted_not_json":
         tb = b"\xff\xfe garbage"
